@@ -1242,7 +1242,15 @@ func analyseMethodObject(p *Prog, named *types.Named) *methodObjInfo {
 			}
 		}
 	}
-	info.ok = ok && nAlloc >= 1 && driver != nil && !isMethodOfT(driver)
+	// … and it has phases: at least one method of its own that runs in the module (a plain record type — an entry
+	// of a map copied into a local, a pair of lists — is data, not a method object)
+	hasMethod := false
+	for _, fn := range p.Funcs {
+		if isMethodOfT(fn) && fn.Blocks != nil && fn.Synthetic == "" {
+			hasMethod = true
+		}
+	}
+	info.ok = ok && hasMethod && nAlloc >= 1 && driver != nil && !isMethodOfT(driver)
 	return info
 }
 
